@@ -53,6 +53,10 @@ func init() {
 			e.envState["clock"] = a[0]
 			return nil
 		},
+		zzPath + ".ClockStepMax": func(e *Exec, fn *ssa.Function, a []Value) Value {
+			e.envState["clockstepmax"] = a[0]
+			return nil
+		},
 		zzPath + ".ClockAuto": func(e *Exec, fn *ssa.Function, a []Value) Value {
 			e.envState["clockauto"] = a[0]
 			return nil
@@ -706,7 +710,12 @@ func inTimeNow(e *Exec, fn *ssa.Function, a []Value) Value {
 		n := e.uniqueName("now")
 		t := ts.Var(n, 64)
 		e.nondets = append(e.nondets, nondetRec{Name: n, T: t})
-		e.assume(ts.And(ts.Cmp(OpSle, cur, t), ts.Cmp(OpSlt, t, ts.Const(64, 1<<62))))
+		c := ts.And(ts.Cmp(OpSle, cur, t), ts.Cmp(OpSlt, t, ts.Const(64, 1<<62)))
+		if mx, ok := e.envState["clockstepmax"].(*Term); ok {
+			// every reading is at most mx nanoseconds after the previous one
+			c = ts.And(c, ts.Cmp(OpSle, ts.Bin(OpSub, t, cur), mx))
+		}
+		e.assume(c)
 		e.envState["clock"] = t
 		cur = t
 	}
